@@ -142,6 +142,7 @@ def build_c(q):
     for m in ['cxx'] + list(ob.get('models', [])):
         cmd += ['--models', os.path.join(ENGINE, 'models', m + '.c')]
     for k in ob.get('keep', []): cmd += ['--root', k]
+    for k in ob.get('allow_external', []): cmd += ['--define-external', k]
     r = run(cmd, cwd=wd, timeout=600)
     if r['rc'] != 0:
         raise ToolError('ir2c: ' + r['err'][-1500:])
@@ -149,7 +150,7 @@ def build_c(q):
     funcs = [x for x in fl if x and not x.startswith('#')]
     ext = [x[len('#external '):].split() for x in fl if x.startswith('#external ')]
     ext = ext[0] if ext else []
-    missing = [e for e in ext if e not in ('vf_observe',)]
+    missing = [e for e in ext if e not in ('vf_observe',) and not any(re.search(rx, e) for rx in ob.get('allow_external', []))]
     if missing:
         raise ToolError('externals without a model: ' + ' '.join(missing))
     for rx in ob.get('expect_functions', []):
